@@ -7,7 +7,7 @@ import cfgs as C
 import fields as F
 import hist as H
 import props.cfgprops as P
-from core import Result, stable
+from core import guard, Result, stable
 
 RULE = ("random schemas with required fields, defaults, field-level and schema-level catalogue validators (which log their invocations) "
         "and feature flags at several depths x trees (complete, partial, empty, invalid) through load_tree / validate / "
@@ -194,6 +194,60 @@ def oracle(res, case, sk, ops, impl, live, tmp, keypath):
     oracle_live(res, case, sk, ops, tmp, keypath)
 
 
+def falsy_validator_stream(ctx, res, n):
+    """field validators that refuse a value which is valid for the field's type but falsy (0, False, "", []): a load carrying such a
+    value must not return, at any depth and in items of configuration lists; collecting mode reports it"""
+    import cincoconfig as cc
+    rng = ctx.rng
+
+    def refuse_falsy(cfg, v):
+        if not v:
+            raise ValueError("must not be empty / zero / false")
+        return v
+    makers = [("int", lambda: cc.IntField(validator=refuse_falsy, default=5), 0), ("bool", lambda: cc.BoolField(validator=refuse_falsy, default=True), False),
+              ("string", lambda: cc.StringField(validator=refuse_falsy, default="x"), ""), ("list", lambda: cc.ListField(cc.IntField(), validator=refuse_falsy, default=lambda: [1]), []),
+              ("float", lambda: cc.FloatField(validator=refuse_falsy, default=1.5), 0.0)]
+    for i in range(n):
+        name, mk, falsy = rng.choice(makers)
+        depth = rng.randint(0, 2)
+        in_item = rng.random() < 0.4
+        leaf = cc.Schema()
+        leaf.x = mk()
+        leaf.other = cc.IntField(default=1)
+        s = cc.Schema()
+        holder = s
+        for lvl in range(depth):
+            holder = getattr(holder, "lvl%d" % lvl)
+        if in_item:
+            holder.items = cc.ListField(cc.make_type(leaf, "FalsyItem%d" % i) if rng.random() < 0.5 else leaf, default=lambda: [])
+            tree = {"items": [{"other": 2}, {"x": falsy}]}
+        else:
+            holder.x = mk()
+            tree = {"x": falsy}
+        for lvl in reversed(range(depth)):
+            tree = {"lvl%d" % lvl: tree}
+        route = rng.choice(["load_tree", "loads"])
+        cfg = s()
+        case = {"stream": "falsy-validator", "kind": name, "depth": depth, "in_list_item": in_item, "route": route}
+        try:
+            if route == "load_tree":
+                cfg.load_tree(copy.deepcopy(tree))
+            else:
+                cfg.loads(json.dumps(tree).encode(), format="json")
+            returned = True
+        except Exception:  # noqa
+            returned = False
+        res.case(stable([name, depth, in_item, route]), sample=case if i < 2 else None, kind="falsy-validator:" + name)
+        if returned:
+            res.violate("C11:validator-skipped:falsy", "a load returned although a field's validator refuses the loaded value (a valid but falsy one)", case)
+            try:
+                errs = cfg.validate(collect_errors=True)
+            except Exception:  # noqa
+                errs = ["raised"]
+            if not errs:
+                res.violate("C11:collect-empty:falsy", "collecting mode reports nothing although a field's validator refuses the held value", case)
+
+
 def run(ctx, n_quick=250, n_thorough=8000):
     res = Result()
     tmp, keypath = P.setup(ctx)
@@ -204,6 +258,7 @@ def run(ctx, n_quick=250, n_thorough=8000):
         P.run_stream(ctx, res, "C11", ctx.n(n_quick, n_thorough), oracle, gen_ops=gen_ops, ops_len=(4, 10), schema_gen=lambda rng, t, k: gen_schema(rng, t, k))
     finally:
         pass
+    guard(res, "C11", falsy_validator_stream, ctx, res, ctx.n(80, 2000))
     return res
 
 
